@@ -9,6 +9,7 @@ package rtmpref
 import (
 	"encoding/binary"
 	"fmt"
+	"sort"
 )
 
 // Msg is one RTMP message as the specification defines it.
@@ -337,6 +338,7 @@ func (c *Chunker) AnyInFlight() []uint32 {
 			r = append(r, id)
 		}
 	}
+	sort.Slice(r, func(i, j int) bool { return r[i] < r[j] })
 	return r
 }
 
